@@ -44,6 +44,10 @@ type Solver struct {
 	bin       string
 	logic     string
 	debugBodies map[int32]string
+	lines       [][]string // declarations, definitions and assertions per level (for the one-shot fallback)
+	pending     string     // get-value answer of a one-shot fallback run, consumed by GetModel
+	Fallbacks   int
+	fallbackMs  int
 }
 
 func NewSolver(bin string, timeoutMs int, logPath string, logic string) (*Solver, error) {
@@ -83,6 +87,7 @@ func (s *Solver) start() error {
 	s.in = bufio.NewWriterSize(stdin, 1<<16)
 	s.out = bufio.NewReaderSize(stdout, 1<<16)
 	s.level = 0
+	s.lines = nil
 	s.defs = [][]int32{nil}
 	s.decls = [][]string{nil}
 	s.defAt = map[int32]int{}
@@ -117,6 +122,12 @@ func (s *Solver) send(line string) {
 	if s.log != nil {
 		fmt.Fprintln(s.log, line)
 	}
+	if strings.HasPrefix(line, "(declare-") || strings.HasPrefix(line, "(define-") || strings.HasPrefix(line, "(assert") {
+		for len(s.lines) <= s.level {
+			s.lines = append(s.lines, nil)
+		}
+		s.lines[s.level] = append(s.lines[s.level], line)
+	}
 	s.in.WriteString(line)
 	s.in.WriteByte('\n')
 }
@@ -144,6 +155,9 @@ func (s *Solver) PopTo(level int) {
 	}
 	s.defs = s.defs[:level+1]
 	s.decls = s.decls[:level+1]
+	if len(s.lines) > level+1 {
+		s.lines = s.lines[:level+1]
+	}
 	s.level = level
 }
 
@@ -248,6 +262,10 @@ func (s *Solver) Check() SatResult {
 		}
 		fmt.Fprintf(os.Stderr, "solver: unexpected output %q\n", line)
 	}
+	s.pending = ""
+	if res == Unknown && s.cmd != nil && s.fallbackMs > 0 {
+		res = s.oneShot()
+	}
 	s.Time += time.Since(t0)
 	switch res {
 	case Sat:
@@ -300,13 +318,22 @@ func (s *Solver) GetModel(syms []*Term) (Model, map[string]*big.Int) {
 		}
 	}
 	req.WriteString("))")
-	s.send(req.String())
-	s.in.Flush()
-	// read balanced s-expression
 	var sb strings.Builder
 	depth := 0
 	started := false
-	for {
+	if s.pending != "" {
+		out := s.runOneShot(req.String())
+		parts := strings.SplitN(out, "\n", 2)
+		if len(parts) == 2 {
+			sb.WriteString(parts[1])
+		}
+		started, depth = true, 0
+	} else {
+		s.send(req.String())
+		s.in.Flush()
+	}
+	// read balanced s-expression
+	for s.pending == "" {
 		line, err := s.out.ReadString('\n')
 		if err != nil {
 			s.Errors++
@@ -430,4 +457,49 @@ func tokenize(s string) []string {
 		}
 	}
 	return toks
+}
+
+// oneShot re-decides the current assertion stack with a fresh solver process
+// in non-incremental mode, where z3 applies its full preprocessing (an
+// incremental check of the same bit-vector query can time out while the
+// one-shot run needs seconds). The values of the declared symbols are
+// fetched in the same run and kept for GetModel.
+func (s *Solver) runOneShot(extra string) string {
+	f, err := os.CreateTemp("", "gosymex-*.smt2")
+	if err != nil {
+		return ""
+	}
+	defer os.Remove(f.Name())
+	w := bufio.NewWriter(f)
+	fmt.Fprintln(w, "(set-option :model.completion true)")
+	if s.logic != "" {
+		fmt.Fprintf(w, "(set-logic %s)\n", s.logic)
+	}
+	for _, lv := range s.lines {
+		for _, l := range lv {
+			fmt.Fprintln(w, l)
+		}
+	}
+	fmt.Fprintln(w, "(check-sat)")
+	if extra != "" {
+		fmt.Fprintln(w, extra)
+	}
+	w.Flush()
+	f.Close()
+	out, _ := exec.Command(s.bin, fmt.Sprintf("-T:%d", (s.fallbackMs+999)/1000), f.Name()).Output()
+	return string(out)
+}
+
+func (s *Solver) oneShot() SatResult {
+	s.Fallbacks++
+	out := s.runOneShot("")
+	ans := strings.TrimSpace(strings.SplitN(out, "\n", 2)[0])
+	switch ans {
+	case "unsat":
+		return Unsat
+	case "sat":
+		s.pending = "oneshot"
+		return Sat
+	}
+	return Unknown
 }
